@@ -61,6 +61,7 @@ type Conn struct {
 	ClientEnded bool   // the client ended it (DISCONNECT, FIN, RST, cut)
 	EndKind     string // disconnect, fin, rst
 	EndStamp    int64  // stamp at which the client started ending it
+	HalfClosed  int64  // stamp of the client's half-close (FIN sent, still reading); 0 = none
 	EndVT       int64
 	OpenStamp   int64
 	OpenVT      int64
@@ -268,6 +269,9 @@ func b2i(b bool) int64 {
 // (writer and reader task both send).
 func (r *run) send(c *Conn, b []byte) error {
 	s := r.s
+	if c.HalfClosed > 0 {
+		return io.EOF // the client has shut down its sending direction
+	}
 	for c.sending {
 		c.sendWait = append(c.sendWait, s.Current())
 		s.Block(simrt.WHarness, c, "sendlock")
@@ -523,6 +527,18 @@ func (r *run) client(st *cstate) {
 			}
 			r.endConn(c, "fin")
 			c.nc.Close()
+		case "shutwr":
+			// half-close: FIN after everything written so far, keep reading
+			if c == nil || c.nc.Closed() || c.HalfClosed > 0 {
+				continue
+			}
+			for c.sending {
+				c.sendWait = append(c.sendWait, s.Current())
+				s.Block(simrt.WHarness, c, "sendlock")
+			}
+			r.endConn(c, "fin")
+			c.HalfClosed = s.Stamp()
+			c.nc.CloseWrite()
 		case "rst":
 			if c == nil || c.nc.Closed() {
 				continue
